@@ -356,9 +356,9 @@ func replaceEntities(b []byte, i int, entitiesMap map[string][]byte, revEntities
 		if 0 < len(r) {
 			// check that the replacement does not continue something in front that could then become an entity, such as &#x&#x41;
 			if c := r[0]; c >= '0' && c <= '9' || c >= 'a' && c <= 'z' || c >= 'A' && c <= 'Z' || c == '#' || c == ';' {
-				for k := i - 1; 0 <= k && i-k <= MaxEntityLength+2; k-- {
-					if b[k] == '&' {
-						return b, j
+				for k := i - 1; 0 <= k; k-- {
+					if b[k] == '&' || MaxEntityLength+2 < i-k {
+						return b, j // also when it is too far to tell, a numeric reference can have any number of leading zeros
 					} else if !(b[k] >= '0' && b[k] <= '9' || b[k] >= 'a' && b[k] <= 'z' || b[k] >= 'A' && b[k] <= 'Z' || b[k] == '#') {
 						break
 					}
